@@ -13,6 +13,9 @@ CHECKS={
  "C15":dict(cat="exploration",technique="runtime monitoring: recording stub minifiers + reference dispatch model over exhaustively enumerated registration/call histories (bounded) and seeded random ones",
    text="Every history of registrations up to a length bound over 8 overlapping literal/pattern registrations (exhaustive), plus random histories up to length 40 over 17, with calls interleaved after every registration: the stub that runs, its parameters, Match's answer, the error and the bytes written are compared with a 15-line model of the documented rules; command minifiers are exercised sequentially and concurrently.",
    note="Model is my reading of the doc comments (literal first, then first registered matching pattern, else ErrNotExist); media-type splitting is only predicted for well-formed strings.",ref="DESIGN.md §5 C15"),
+ "C18":dict(cat="exploration",technique="runtime monitoring: differential oracle (own RFC 2397 decoder + media-type normaliser + reference Mediatype) with canary redzones over exhaustive single-byte payloads and seeded generated URIs",
+   text="DataURI is run on every single payload byte in three encodings x four media types (exhaustive), malformed forms, and seeded generated URIs against empty/stub/real registries; the result must decode (by my decoder) to the same normalised media type and to the payload the registered minifier produces, be validly and minimally encoded and never longer than a properly encoded input; Mediatype is compared with a reference on generated strings with quoted parameters.",
+   note="Trusts my decoder/normaliser (RFC 2397/3986) and the dependency's escaping table for length optimality; three genuine dependency-level defects are listed as known findings with input guards.",ref="DESIGN.md §5 C18"),
  "C08":dict(cat="exploration",technique="runtime monitoring: canary redzones + math/big value oracle over an exhaustive bounded enumeration and seeded random lexemes",
    text="Every lexeme of the number grammar up to a length bound over a carry-exercising digit alphabet (exhaustive), plus seeded long/extreme lexemes, is run through the real Number and Decimal at 22 precisions under canary, panic, grammar, length and exact-value monitors. Held = no monitor fired on any observed call.",
    note="Trusts math/big and my 40-line grammar recogniser; values beyond the enumerated bound are sampled, not covered.",ref="DESIGN.md §5 C08"),
